@@ -6,6 +6,7 @@ var plans = map[string][]planItem{
 	"C09": {{Scenario: "c09", Quick: 2000, Thorough: 100000}, {Scenario: "c09", Race: true, Quick: 240, Thorough: 20000}},
 	"C02": {{Scenario: "c02", Quick: 1500, Thorough: 100000}},
 	"C03": {{Scenario: "c03", Quick: 4000, Thorough: 400000}},
+	"C10": {{Scenario: "c10", Quick: 3000, Thorough: 300000, PerProc: 50}},
 	"C12": {{Scenario: "c12", Quick: 3000, Thorough: 200000}},
 	"C13": {{Scenario: "c13", Quick: 2800, Thorough: 200000}},
 	"C14": {{Scenario: "c14", Quick: 2000, Thorough: 150000}},
